@@ -666,7 +666,7 @@ class JordanCurve:
                 break
         else:
             return False
-        nsegments = len(self.segments)
+        nsegments = len(selcopy.segments)
         for i, segment1 in enumerate(othcopy.segments):
             segment0 = selcopy.segments[(i + index) % nsegments]
             if segment0 != segment1:
